@@ -930,6 +930,36 @@ func (c *Ctx) checkPromConfig(rule string) {
 				return xf == fCfgOptErr, op == token.NEQ
 			}) != nil {
 				progWins = true
+			} else {
+				// ... or it is installed first, unconditionally, and every other store into the option
+				// only fills the gap it left: `opts.X = configOpts.OnError; if opts.X == nil { opts.X = ... }`
+				first := true
+				onlyGaps := true
+				instrsOf(fn, func(o ssa.Instruction) {
+					os2, isSt := o.(*ssa.Store)
+					if !isSt || os2 == st {
+						return
+					}
+					if f2, _ := addrField(os2.Addr); f2 != fOptErr {
+						return
+					}
+					if !dominates(st, os2) {
+						first = false
+					}
+					if guardedByEdge(os2, func(cond ssa.Value) (bool, bool) {
+						op, x, y, okc := cmpOf(cond)
+						if !okc || !isNilConst(y) {
+							return false, false
+						}
+						xf, _ := loadedField(stripConv(x))
+						return xf == fCfgOptErr || xf == fOptErr, op == token.EQL
+					}) == nil {
+						onlyGaps = false
+					}
+				})
+				if first && onlyGaps {
+					progWins = true
+				}
 			}
 			return
 		}
